@@ -260,6 +260,16 @@ def judge(sp, cfg, res, want=None):
                     if rg:
                         exp_rows += [("label", "grow:"), ("plain", 1.0), ("bytes", float(rg)),
                                      ("label", "shrink:"), ("plain", 1.0), ("bytes", float(rg))]
+                # which counter kinds have a throughput row (by unit suffix) vs. the kinds that are in force
+                def kind_of(cell):
+                    for kk, suf in ((1, "char/s"), (3, "item/s"), (2, "Hz"), (0, "B/s")):
+                        if cell.endswith(suf):
+                            return kk
+                    return None
+                shown_kinds = sorted({kind_of(r[0]) for r in rows if kind_of(r[0]) is not None})
+                want_kinds = sorted(k for k in range(4) if k in ctrs and nsamp)
+                if shown_kinds != want_kinds:
+                    add("C15", "counter_kinds", "%s: throughput rows for counter kinds %s, the per-kind resolution gives %s (%s)" % (where, shown_kinds, want_kinds, ex["eff"]))
                 if len(rows) != len(exp_rows):
                     add("C20", "continuation_rows", "%s: %d continuation rows %s, expected %d (%s)" % (where, len(rows), [r[0] for r in rows], len(exp_rows), [x[:2] for x in exp_rows]))
                     if any(x[0] == "counter" for x in exp_rows) != any("/s" in r[0] or "Hz" in r[0] for r in rows):
